@@ -291,8 +291,8 @@ def e2e_pair(ctx, iso3, options):
 
 def shard(ctx):
     thorough = ctx.tier == "thorough"
-    n_direct = 4000 if thorough else 150
-    n_e2e = 40 if thorough else 4
+    n_direct = 4000 if thorough else 500
+    n_e2e = 40 if thorough else 10
 
     def body(case):
         c, k = case
